@@ -72,8 +72,10 @@ class _Subst(ast.NodeTransformer):
     visit_ClassDef = visit_FunctionDef
 
 
-def aliases(fnode):
-    """{local: path expression} for the aliases of *fnode* that qualify."""
+def aliases(fnode, final_attrs=None):
+    """{local: path expression} for the aliases of *fnode* that qualify.
+    With *final_attrs* (a set of attribute names that are only ever assigned in `__init__` methods) only `x = self.<final>` qualifies:
+    such an attribute denotes the same object for the whole life of the instance, so the local and the path are interchangeable."""
     counts = _stores(fnode)
     loop_targets = set()
     for w in walk_no_defs(fnode):
@@ -92,6 +94,9 @@ def aliases(fnode):
             v = w.targets[0].id
             if counts.get(v) != 1 or v in loop_targets:
                 continue
+            if final_attrs is not None and not (isinstance(w.value, ast.Attribute) and isinstance(w.value.value, ast.Name) and w.value.value.id == 'self'
+                                                and w.value.attr in final_attrs):
+                continue
             inner = {x.id for x in ast.walk(w.value) if isinstance(x, ast.Name)}
             # every name in the path must itself be stable: `self`, or bound at most once (parameters count twice above: allow them explicitly)
             params = {x.arg for x in fnode.args.posonlyargs + fnode.args.args + fnode.args.kwonlyargs}
@@ -107,13 +112,13 @@ def aliases(fnode):
     return out, bind
 
 
-def apply(fnode):
+def apply(fnode, final_attrs=None):
     """Return a normalised deep copy of *fnode*, or None when nothing changes."""
-    m, _ = aliases(fnode)
+    m, _ = aliases(fnode, final_attrs)
     if not m:
         return None
     new = clone(fnode)
-    m2, bind = aliases(new)
+    m2, bind = aliases(new, final_attrs)
     # resolve chains (alias of an alias) a few levels
     for _ in range(3):
         changed = False
